@@ -3,6 +3,8 @@
 package saml
 
 import (
+	"bytes"
+	"compress/flate"
 	"github.com/beevik/etree"
 	dsig "github.com/russellhaering/goxmldsig"
 )
@@ -55,4 +57,37 @@ func verifMaterialise(d *verifDoc) []byte {
 		panic(err)
 	}
 	return b
+}
+
+func verifMaterialiseLogout(lr *LogoutResponse, sign int, rootless bool) []byte {
+	if rootless {
+		return []byte("<!-- no root element -->")
+	}
+	r := *lr
+	r.Signature = nil
+	if sign != 0 {
+		r.Signature = verifSignatureOf(r.Element(), sign)
+	}
+	doc := etree.NewDocument()
+	doc.SetRoot(r.Element())
+	b, err := doc.WriteToBytes()
+	if err != nil {
+		panic(err)
+	}
+	return b
+}
+
+func verifDeflate(b []byte) []byte {
+	var buf bytes.Buffer
+	w, err := flate.NewWriter(&buf, flate.DefaultCompression)
+	if err != nil {
+		panic(err)
+	}
+	if _, err := w.Write(b); err != nil {
+		panic(err)
+	}
+	if err := w.Close(); err != nil {
+		panic(err)
+	}
+	return buf.Bytes()
 }
